@@ -1,6 +1,7 @@
 import RepeVerif.Lemmas.WriterDiscipline
 import RepeVerif.Gen.Wire
 import RepeVerif.Gen.Torn
+import RepeVerif.Props.C02
 /-!
 # C05 — Bytes put on a connection are always whole frames, never torn or interleaved
 
@@ -21,7 +22,9 @@ clause → theorem
 * an interrupted write is never followed by further frames .. `whole_frames` (last clause), `failed_is_final`,
                                                               `whole_frames_quiescent`
 * the connection is failed instead .......................... `interrupted_frame_fails_connection`
-* a peer re-synchronises purely from declared lengths ....... `frames_self_delimiting`, `peer_resync`
+* a peer re-synchronises purely from declared lengths ....... `frames_self_delimiting`, `peer_resync`,
+                                                              `peer_resync_current` (corollary of `C02.parse_complete` / `C02.parse_sound`
+                                                              on the extracted sum forms and the extracted endpoint facts)
 * each fact is necessary .................................... `torn_without_fail`, `interleaved_without_lock`
 * the driver of the correspondence runs this model .......... `driver_run_is_model_run`, `driver_frames_consistent`
 
@@ -187,6 +190,64 @@ theorem peer_resync (form sform : SumForm) (mode : OvMode) (f : Facts) (hx : f.e
   rcases hshape with h | ⟨m, off, hm, hlt, h⟩
   · subst h; simp [parseFrames, Message.fromSlice]
   · rw [h, truncated_frame_not_parsed form sform mode m hm off hlt]; simp
+
+/-! ### composition with C02: re-synchronisation as a corollary of the parser theorems -/
+
+/-- C02's soundness theorem, applied to a torn tail: the current source's `Message::from_slice`
+(extracted header sum form, any slice sum form, both build profiles) never accepts a proper prefix of a
+consistent frame.  (By `C02.parse_sound`: an accepted frame lies inside the buffer and carries the
+buffer's own header — which is the torn frame's header and declares more than is there.) -/
+theorem torn_tail_rejected_by_current_parser (mode : OvMode) (sf : SumForm) (m0 : Message) (wf : m0.WF)
+    (off : Nat) (hoff : off < m0.toVec.length) (m' : Message) :
+    Message.fromSlice Gen.headerSumForm sf mode (m0.toVec.take off) ≠ .ok m' := by
+  intro hp
+  obtain ⟨h48, hhdr, _, _, hle, _⟩ := C02.parse_sound mode sf _ m' hp
+  have hlen : (m0.toVec.take off).length = off := by simp [List.length_take]; omega
+  rw [hlen] at h48 hle
+  have htail : m0.toVec.take off = m0.header.encode ++ (m0.query ++ m0.body).take (off - 48) := by
+    simp only [Message.toVec, List.append_assoc]
+    rw [List.take_append, encode_length, List.take_of_length_le (by simp; omega)]
+  have hh : m'.header = m0.header := by
+    rw [hhdr, htail]; exact parse_encode_append m0.header wf.inRange _
+  have := toVec_length m0
+  rw [hh, wf.qlen, wf.blen] at hle
+  omega
+
+/-- **Re-synchronisation from C02's theorems, on the current source's forms.**  For each of the six
+endpoints with the facts extracted today, and every schedule: at every frame boundary of the stream the
+current `Message::from_slice` returns exactly the next completed frame (`C02.parse_complete`), and at the
+boundary after the last completed frame it accepts nothing (`C02.parse_sound` via
+`torn_tail_rejected_by_current_parser`) — the torn tail is never mistaken for a frame. -/
+theorem peer_resync_current (mode : OvMode) (sf : SumForm) (ep : Nat) (hep : ep < 6) :
+    ∃ o, Gen.Torn.obs ep = some o ∧
+    ∀ (evs : List (Ev Message)), (∀ e ∈ evs, e.Wf) →
+      let c := run mlen o.facts evs Conn.init
+      (∀ pre m post, c.done = pre ++ m :: post →
+        Message.fromSlice Gen.headerSumForm sf mode
+          (c.stream.drop ((pre.map Message.toVec).flatten.length)) = .ok m) ∧
+      (∀ m', Message.fromSlice Gen.headerSumForm sf mode
+          (c.stream.drop ((c.done.map Message.toVec).flatten.length)) ≠ .ok m') := by
+  obtain ⟨o, ho, hw⟩ := whole_frames_endpoints ep hep
+  refine ⟨o, ho, fun evs hwf => ?_⟩
+  obtain ⟨hd, tail, hs, hshape, _⟩ := hw evs hwf
+  intro c
+  have hs' : c.stream = (c.done.map Message.toVec).flatten ++ tail := hs
+  constructor
+  · intro pre m post hsplit
+    have hm : m.WF := hd m (by rw [show (run mlen o.facts evs Conn.init).done = c.done from rfl, hsplit]; simp)
+    rw [hs', hsplit]
+    simp only [List.map_append, List.map_cons, List.flatten_append, List.flatten_cons, List.append_assoc]
+    rw [List.drop_left']
+    · exact C02.parse_complete mode sf m hm _
+    · rfl
+  · intro m'
+    rw [hs', List.drop_left' rfl]
+    rcases hshape with h | ⟨m0, off, hm0, hlt, h⟩
+    · subst h
+      intro hp
+      have := (C02.parse_sound mode sf _ m' hp).1
+      simp at this
+    · rw [h]; exact torn_tail_rejected_by_current_parser mode sf m0 hm0 off hlt m'
 
 /-! ### each fact is necessary (model-level counterexamples, replayed on endpoints that lack a fact) -/
 
